@@ -101,7 +101,7 @@ namespace HC
 
 /-- `Ciphertext::is_valid_for` (metadata + buffer + data) for a ciphertext whose parms id denotes level `l`:
     size 0 or 2..16, every polynomial has `l.size` components of `n` canonical residues, scale = 1.0 (BFV/BGV) resp. ≠ 0
-    (CKKS) — passed in as two Booleans —, correction factor 1 (BFV/CKKS) resp. in [1, t] (BGV) -/
+    (CKKS) — passed in as two Booleans —, correction factor 1 (BFV/CKKS) resp. in [1, t − 1] (BGV) -/
 def ctValid (l : Level) (ct : Ct) (scaleIsOne scaleIsZero : Bool) : Bool :=
   let size := ct.polys.size
   let sizeOk := size = 0 ∨ (2 ≤ size ∧ size ≤ 16)
@@ -112,7 +112,7 @@ def ctValid (l : Level) (ct : Ct) (scaleIsOne scaleIsZero : Bool) : Bool :=
     | .ckks => !scaleIsZero
   let cfOk := match l.scheme with
     | .bfv | .ckks => ct.cf = 1
-    | .bgv => ct.cf ≠ 0 ∧ ct.cf ≤ l.t.value
+    | .bgv => ct.cf ≠ 0 ∧ ct.cf < l.t.value
   sizeOk && shapeOk && scaleOk && cfOk
 
 end HC
